@@ -1,4 +1,5 @@
 import ComposeVerif.Lemmas.Locked
+import ComposeVerif.Lemmas.LockedLive
 import ComposeVerif.Props.C19Locks
 import ComposeVerif.Gen.ConcWrites
 import ComposeVerif.Neg.C19Conc
@@ -106,6 +107,83 @@ theorem guarded_memo_single_value (c : List String) (n : Tid → Nat) {s : St (O
 theorem guarded_memo_no_race (c : List String) (n : Tid → Nat) {s : St (Option (List String)) Tid}
     (hR : Reach true (fun t => List.replicate (n t) (memoF c)) none s) : ¬ RaceAt true s :=
   locked_no_race hR
+
+
+/-! ### termination and completion of the lock-guarded sections (any finite set of goroutines, every schedule) -/
+
+section live
+variable {σ : Type} {prog : Tid → List (σ → σ)} {m0 : σ}
+
+/-- **every primitive step is progress**: with the goroutines that have sections listed in `threads`, each step of a
+    reachable state lowers the number of steps still to be taken by exactly one (with or without the mutex) -/
+theorem locked_measure_decreases {locked : Bool} (threads : List Tid) (hN : threads.Nodup)
+    (hT : ∀ t, t ∉ threads → prog t = []) {s s' : St σ Tid} {l : Label Tid}
+    (hR : Reach locked prog m0 s) (h : step? locked s l = some s') : mu threads s' + 1 = mu threads s := by
+  have hmem : tidOf l ∈ threads := Classical.byContradiction fun hn => step_tid_has_work hR h (hT _ hn)
+  obtain ⟨h1, h2⟩ := cost_step h
+  exact sum_map_point threads hN (cost s) (cost s') (tidOf l) hmem h1 h2
+
+/-- **termination**: no schedule of the sections is longer than four steps per section: `lock, read, write, unlock` -/
+theorem locked_terminates {locked : Bool} (threads : List Tid) (hN : threads.Nodup)
+    (hT : ∀ t, t ∉ threads → prog t = []) (ls : List (Label Tid)) (s' : St σ Tid)
+    (hr : run locked (init prog m0) ls = some s') : ls.length ≤ 4 * (threads.map fun t => (prog t).length).sum := by
+  have key : ∀ (ls : List (Label Tid)) (s : St σ Tid), Reach locked prog m0 s → run locked s ls = some s' →
+      ls.length + mu threads s' = mu threads s := by
+    intro ls
+    induction ls with
+    | nil => intro s _ hr; simp [run] at hr; subst hr; simp
+    | cons l r ih =>
+      intro s hR hr
+      simp only [run] at hr
+      cases hs : step? locked s l with
+      | none => simp [hs] at hr
+      | some s1 =>
+        simp [hs] at hr
+        have hd := locked_measure_decreases threads hN hT hR hs
+        have := ih s1 (.step hR hs) hr
+        simp only [List.length_cons]; omega
+  have h0 : mu threads (init prog m0) = 4 * (threads.map fun t => (prog t).length).sum := by
+    unfold mu
+    induction threads with
+    | nil => rfl
+    | cons a r ih =>
+      have hN' := List.nodup_cons.mp hN
+      simp only [List.map_cons, List.sum_cons]
+      have hr' : (List.map (cost (init prog m0)) r).sum = 4 * (r.map fun t => (prog t).length).sum := by
+        clear ih key hr hT hN hN'
+        induction r with
+        | nil => rfl
+        | cons b q ihq => simp only [List.map_cons, List.sum_cons, ihq]; simp [cost, init]; omega
+      rw [hr']; simp [cost, init]; omega
+  have := key ls (init prog m0) .init hr
+  omega
+
+/-- **every schedule can be completed**: from every reachable state of the locked system some continuation brings every
+    goroutine through all its sections (with `locked_terminates`: every maximal schedule is finite and ends quiescent —
+    nobody waits for the mutex forever, whatever the scheduler does) -/
+theorem locked_can_finish (threads : List Tid) (hN : threads.Nodup) (hT : ∀ t, t ∉ threads → prog t = [])
+    {s : St σ Tid} (hR : Reach true prog m0 s) : ∃ ls s', run true s ls = some s' ∧ quiescent s' := by
+  have key : ∀ k, ∀ s : St σ Tid, Reach true prog m0 s → mu threads s ≤ k → ∃ ls s', run true s ls = some s' ∧ quiescent s' := by
+    intro k
+    induction k with
+    | zero =>
+      intro s hs hk
+      rcases locked_deadlock_free hs with hq | ⟨l, s1, hst⟩
+      · exact ⟨[], s, rfl, hq⟩
+      · have := locked_measure_decreases threads hN hT hs hst; omega
+    | succ k ih =>
+      intro s hs hk
+      rcases locked_deadlock_free hs with hq | ⟨l, s1, hst⟩
+      · exact ⟨[], s, rfl, hq⟩
+      · have hd := locked_measure_decreases threads hN hT hs hst
+        obtain ⟨ls, s', hrun, hq⟩ := ih s1 (.step hs hst) (by omega)
+        exact ⟨l :: ls, s', by simp [run, hst, hrun], hq⟩
+  exact key (mu threads s) s hR (Nat.le_refl _)
+
+end live
+
+/-- non-vacuity of the bound: the two-load example of `Props/C19Locks.lean` (1 + 2 sections) runs 12 = 4·3 steps -/
+example : exRun.length = 4 * ([false, true].map fun t => (warnProg (exFiles t)).length).sum := by decide
 
 /-- non-vacuity: a reachable state of two workers in which the memo is filled -/
 example : ((run true (init (fun _ : Bool => List.replicate 1 (memoF ["base"])) none)
